@@ -1,7 +1,9 @@
 package main
 
 import (
+	"fmt"
 	"go/types"
+	"os"
 	"strings"
 
 	"golang.org/x/tools/go/ssa"
@@ -132,8 +134,28 @@ func runC18(p *Program, e *Engine, r *Result, tier string) {
 				if c2, ok := u.Instr.(*ssa.Call); ok {
 					if cal2 := u.Ctx.calleeOf(&c2.Call); cal2 != nil && a.P.inMain(cal2) && cal2.Signature.Results().Len() >= 1 && isErrorType(cal2.Signature.Results().At(cal2.Signature.Results().Len()-1).Type()) {
 						sub := u.Ctx.path(c2)
-						if cal2.Signature.Results().Len() > 1 {
-							sub += sprintf("#%d", cal2.Signature.Results().Len()-1)
+						nres := cal2.Signature.Results().Len()
+						if nres > 1 {
+							sub += sprintf("#%d", nres-1)
+						}
+						// the error result as a value, so that "it is nil" is stated the way the branch conditions state it
+						var errV ssa.Value = c2
+						if nres > 1 {
+							errV = nil
+							if refs := c2.Referrers(); refs != nil {
+								for _, rr := range *refs {
+									if ex, ok := rr.(*ssa.Extract); ok && ex.Index == nres-1 {
+										errV = ex
+									}
+								}
+							}
+						}
+						if errV != nil {
+							if d, ok := u.Ctx.resultDNF(errV, true, false); ok {
+								T = safeAndDNF(T, d)
+								continue
+							}
+							sub = u.Ctx.path(errV) // as the branch conditions name it (seen through single-return helpers)
 						}
 						T = T.andLit(Lit{A: &Atom{Kind: AkNil, Subj: sub}})
 					}
@@ -142,6 +164,9 @@ func runC18(p *Program, e *Engine, r *Result, tier string) {
 			h, ctr, err := implies(T, mark)
 			if err != nil {
 				a.R.fail("%v", err)
+			}
+			if os.Getenv("VERIF_DEBUG") == "18" && !h {
+				fmt.Fprintf(os.Stderr, "T=%s\nMARK=%s\n\n", stripIDs(T.String()), stripIDs(mark.String()))
 			}
 			okMark = h
 			mw = "sent ∧ no error => name marked seen"
